@@ -14,13 +14,18 @@ EXPLANATION = (
     "inputs and every vector-field evaluation inside must take t from a differentiated input that the site pairs with the "
     "caller's time and the unit series (1, 0, ..., 0) -- a time taken from a closure is reported (d/dt of a non-autonomous "
     "right-hand side would be dropped).  Plus: jet-lifted ODEs are rejected before use, the type check of the decorated "
-    "routines is passed on every path, the pytree wrapper forwards t and un-/re-ravels with the same unravel."
+    "routines is passed on every path, the pytree wrapper forwards t and un-/re-ravels with the same unravel.  "
+    "Derivative-order typestate (domain J, jdomain.py): the three Taylor-mode / recursive-JVP routines are interpreted on the symbols D(j) = u^(j)(t0) with the "
+    "documented semantics of jet and jvp (exactness per order, equal series lengths, tangents = time derivative of the primals along the flow, differentiated "
+    "callables re-evaluated on probes so that a closure over the initial values is not mistaken for a function); each must return exactly (D0, ..., D_{k-1+num}) for "
+    "ODE orders k = 1..3 and num = 1..6 -- loop counts, padding, slices, series alignment and the recursion g_{n+1} = d/dt g_n are thereby decided."
 )
 LEVEL = "other"
-TECHNIQUE = "abstract interpretation over the AST: differentiation-coverage (closure/provenance) analysis of Taylor-mode call sites, must-pass-through guard tracking"
+TECHNIQUE = "abstract interpretation over the AST: differentiation-coverage (closure/provenance) analysis of Taylor-mode call sites, must-pass-through guard tracking, derivative-order typestate of the Taylor recursions over a finite grid of static parameters"
 LEVEL_TEXT = (
     "A necessary condition of exactness for time-dependent vector fields, decided for every vector field at once: the recursion differentiates "
-    "along (u, t), not along u only.  The values of the coefficients and the agreement between routines are not decided."
+    "along (u, t), not along u only.  With the typestate the three non-experimental routines are shown to return the exact derivatives (given exact jet/jvp), hence to agree with one another, "
+    "on the grid k = 1..3, num = 1..6; the doubling routine (normalised coefficients, linearised jet) and the residual-based routine are outside the typed fragment."
 )
 LEVEL_NOTE = (
     "Trusted: jax.experimental.jet / jax.jvp propagate the series/tangents they are given.  Only differentiation in the direction d/dt "
@@ -49,6 +54,8 @@ def run(chk, S: Session):
     chk.trust("func.jet(f, primals, series) / func.jvp(f, primals, tangents) differentiate f along the given series / tangents")
     r1 = chk.rule("R-C10-1", "explicit time is a differentiated input (unit series/tangent) at every Taylor-mode differentiation site", floor=10)
     r2 = chk.rule("R-C10-2", "routines reject jet-lifted ODEs / non-ODE inputs before use; pytree wrapper forwards t and re-ravels consistently", floor=10)
+    r3 = chk.rule("R-C10-3", "derivative-order typestate: each recursion returns exactly (u, u', ..., u^(k-1+num)) of the true solution, for ODE orders k = 1..3 and num = 1..6 (jet / jvp semantics trusted)", floor=50)
+    order_typestate_rules(chk, S, r3)
     jm = S.p.module(JETEXP)
     names = [n for n, _ in ROUTINES]
     for n in names + ["jetexpand_residual"]:
@@ -132,3 +139,48 @@ def run(chk, S: Session):
         u0 = T.atom("u0_flat", array=True)
         res = it.call(alg, [make_vf(it), [u0]], {"t": A("t")}, "<harness>")
         r2.require(isinstance(res, (tuple, list)) and list(res[0]) == [u0], f"{rname} num=0", "returns the initial values", f"{T.show(res, 2)}", JETEXP)
+
+
+TYPED_ROUTINES = ("jetexpand_ode_padded_scan", "jetexpand_ode_unroll", "jetexpand_ode_via_jvp")
+
+
+def order_typestate_rules(chk, S, r3):
+    from .. import jdomain as JD
+
+    for rname in TYPED_ROUTINES:
+        for k in (1, 2, 3):
+            for num in (1, 2, 3, 4, 5, 6):
+                cfg = {"routine": rname, "ode_order": k, "num": num}
+                it = S.interp()
+                t0 = A("t0")
+                env = JD.JEnv(it, k, t0)
+                JD.install(it, env)
+                vf = it.instantiate(it.class_value(PROBLEMS + ".JetOde"), [env.vector_field()], dict(jacobian=A("jac"), num_tcoeffs_in_args=k, tcoeff_indices_output=[k]), "<harness>")
+                construct = f"{rname} k={k} num={num}"
+                try:
+                    alg = it.call(it.function_value(f"{JETEXP}.{rname}"), [], {"num": num}, "<harness>")
+                    res = it.call(alg, [vf, [env.D(i) for i in range(k)]], {"t": t0}, "<harness>")
+                except RaiseSignal as e:
+                    r3.fail(construct, f"raises {e.exc} at {e.site} for a valid problem", e.site, cfg)
+                    continue
+                except AnalysisError as e:
+                    r3.unknown(construct, str(e), JETEXP, cfg)
+                    continue
+                S.absorb(it)
+                coeffs = res[0] if isinstance(res, (tuple, list)) and len(res) == 2 else None
+                if not isinstance(coeffs, (list, tuple)):
+                    r3.unknown(construct, f"result is not a static list of coefficients: {T.show(res, 3)}", JETEXP, cfg)
+                    continue
+                got = [env.order_of(c) for c in coeffs]
+                want = list(range(k + num))
+                if env.violations:
+                    what, detail, site = env.violations[0]
+                    r3.fail(f"{construct} [{what}]", detail, site or JETEXP, cfg)
+                    continue
+                if env.untyped:
+                    r3.unknown(construct, f"outside the typed fragment: {env.untyped[0][0]}", env.untyped[0][1] or JETEXP, cfg)
+                    continue
+                why = next((d for kind, d, _s in env.notes if kind == "garbage"), "")
+                r3.require(got == want, construct, f"returns D0..D{k + num - 1}",
+                           f"returns the derivative orders {['?' if g is None else g for g in got]}; expected {want}" + (f" (first inexact value: {why})" if None in got and why else ""), JETEXP, cfg)
+        chk.sample({"rule": "R-C10-3", "routine": rname, "grid": "k in 1..3, num in 1..6"})
